@@ -12,6 +12,7 @@ from nix_manipulator.expressions.expression import (
     NixExpression,
     TypedExpression,
     coerce_expression,
+    shared_render_variant,
 )
 from nix_manipulator.expressions.layout import linebreak
 from nix_manipulator.expressions.list import NixList
@@ -316,7 +317,12 @@ class Binding(TypedExpression):
         value_expr = coerce_expression(self.value)
         value_after = list(value_expr.after)
         if value_after:
-            value_expr = value_expr.model_copy(update={"after": []})
+            source_value = value_expr
+            value_expr = shared_render_variant(
+                "value-without-after",
+                source_value,
+                lambda: source_value.model_copy(update={"after": []}),
+            )
         if not value_layout.on_newline and any(
             isinstance(item, Comment) for item in value_expr.before
         ):
